@@ -818,12 +818,17 @@ def _helper_candidates(repo: Repo, prot: set):
                 host = outer
                 while host is not None and not isinstance(host, ast.stmt):
                     host = getattr(host, "_parent", None)
-                hoistable = isinstance(host, (ast.Return, ast.Assign, ast.AnnAssign, ast.Expr, ast.If)) and not awaited and any(r_.value is not None for r_ in rets)
+                hoistable = isinstance(host, (ast.Return, ast.Assign, ast.AnnAssign, ast.Expr, ast.If, ast.For)) and not awaited and any(r_.value is not None for r_ in rets)
+                if hoistable and isinstance(host, ast.For) and not any(x is call for x in ast.walk(host.iter)):
+                    hoistable = False        # (only the iterable of a `for` is evaluated once, before the loop)
                 if hoistable:
-                    region = host.test if isinstance(host, ast.If) else host
+                    region = host.test if isinstance(host, ast.If) else (host.iter if isinstance(host, ast.For) else host)
+                    inside_call = {id(y) for y in ast.walk(call)}
                     for x in _eval_order(region):
                         if x is call:
                             break
+                        if id(x) in inside_call:
+                            continue         # the call's own arguments move with it
                         if isinstance(x, ast.Attribute) and _simple_arg(x):
                             continue
                         if not isinstance(x, (ast.Name, ast.Constant)):
